@@ -11,14 +11,18 @@ Relations
             Python entry point on the same parameters, once more respelled (short <-> long,
             file of the drawn shape <-> repeated options) and, when the selection names unknown
             entries, once more without them; outputs compared line by line, exit codes,
-            samples/IDs present in the output, messages of level >= WARNING and library warnings,
-            and which of the output files the subcommand documents exist afterwards.  Every
+            samples/IDs present in the output, the warnings the command PRINTED (what CliRunner captured
+            of stderr, parsed back into log lines) and which of the output files the subcommand documents
+            exist afterwards.  The runs of a case are made in one process in a drawn order, with drawn
+            earlier runs ("history": the same subcommand at another verbosity, through the Python entry
+            point without a logger, another subcommand) in between: nothing judged may depend on them.  Every
             subcommand is also run in configurations meant to fail (FAIL_CLASSES); index --no-sort
             is compared with the model of index_haps' tail (order of the data lines -> exit status)
 """
 import gzip
 import hashlib
 import os
+import re
 import shutil
 import tempfile
 
@@ -29,7 +33,7 @@ from .core import Relation, err_kind
 
 PROP = "C19"
 CLAIMED = True
-COQ_MODULES = ["C19_Check", "C19_Proofs", "C19_ProofsExit"]
+COQ_MODULES = ["C19_Check", "C19_Proofs", "C19_ProofsExit", "C19_ProofsLog"]
 PROPERTY_MODULE = "C19_Property"
 ALLOWED_AXIOMS = []
 
@@ -78,7 +82,8 @@ RULE = (
     "meant to fail (every subcommand: output directory absent; transform/simphenotype/ld: a missing call, only unknown "
     "IDs, an absent target, a repeat without --repeats, --ancestry without ancestry; index --no-sort on lines tabix "
     "refuses; clump: a column that is not there; simgenotype: a chromosome / model it rejects; karyogram: an absent "
-    "sample). Distinct = distinct canonical JSON."
+    "sample). The runs of a cli case are made in one process in a drawn order, with drawn earlier runs in between. "
+    "Distinct = distinct canonical JSON."
 )
 TRUSTED = [
     "click: parses the command line and passes declared option values (repeated options as a tuple, click.File as an "
@@ -86,9 +91,20 @@ TRUSTED = [
     "covers only the option-resolution logic of haptools/__main__.py)",
     "str.splitlines boundaries as documented (\\n \\r \\r\\n \\v \\f \\x1c-\\x1e \\x85 \\u2028 \\u2029); strings are code-point lists",
     "interning of output lines to integers (injective per case); PNG / .tbi / PGEN / BCF outputs compared as SHA-256 of bytes",
-    "what a run reports is observed as the log records of level >= WARNING that reach the root logger plus the warnings "
-    "issued through Python's warnings module (recorded with an 'always' filter); a message is split into words at "
-    "whitespace, with []{}()'\"`,:;. stripped from both ends of a word, and words are interned",
+    "what a command-line run reports is what it PRINTS: the text click's CliRunner captured of stderr (click >= 8.2: "
+    "Result.stderr; older: Result.output), parsed back by the harness into log lines - '[   LEVEL(|time)] message "
+    "(file:line)' as haptools/logging.py formats them, a message may span lines - of level >= WARNING and the lines "
+    "warnings.showwarning wrote ('file:line: Category: message'; an 'always' filter is in force so that warnings are "
+    "not deduplicated across the cases a worker runs); a message is split into words at whitespace, with "
+    "[]{}()'\"`,:;. stripped from both ends of a word, and words are interned",
+    "the log records that come into being on the subcommand's logger 'haptools.<subcommand>' are observed through "
+    "logging.setLogRecordFactory (no handler or filter is attached to any logger); the harness empties the handler "
+    "lists and levels of the haptools loggers at the START of a case (a worker runs many cases; a case stands for one "
+    "process) and never inside one; logging.raiseExceptions is off while a run is observed; the getLogger calls a "
+    "case makes before its command-line run (c_calls) are the ones the harness arranged (one per command-line run: "
+    "-v level, a stream of its own; one per call of an entry point: the level of the logger handed over, or ERROR when "
+    "it is left to make its own; the process's stderr) - on the model of the code as it is they provably do not "
+    "matter (C19_log_history_independent), so a wrong presumption cannot produce a disagreement",
     "harness-side writers of the inputs (bgzip/tabix via pysam, BCF via pysam.bcftools, PGEN via pgenlib, C01's "
     "model/map files, C11's .hap files, C17's clump inputs)",
     "the list of output files each subcommand documents (harness doc_outputs: transform -o FILE, or FILE.pgen + .pvar + "
@@ -120,6 +136,15 @@ ASSUMPTIONS = [
     "exist afterwards, or when the documented Python entry point, given the same parameters, raises (or returns without "
     "having written a documented output). Nothing is demanded of runs that merely log an ERROR (simphenotype "
     "--no-normalize without --heritability logs one and completes by design).",
+    "runs in one process: 'the same output as its documented Python entry point given the same parameters' and "
+    "'reported' are demanded of a command-line run whatever ran earlier in the same process - the other runs of the "
+    "case in a drawn order (command line, respelled command line, the run without the unknown entries, the entry "
+    "point with a logger of the command line's level or without one) and drawn earlier runs: the same subcommand on "
+    "the same inputs with -v ERROR / DEBUG / NOTSET / CRITICAL / WARNING / default into another output directory, the "
+    "entry point left to make its own (ERROR) logger, `haptools index` of another file. Only that is demanded: the "
+    "run's own -v decides what must be printed (an earlier DEBUG run is not required to make a later default run "
+    "print debug lines); nothing is demanded of the earlier runs themselves, nor of how OFTEN a line is printed "
+    "(repeated calls on one stream duplicate lines on the code as it is: C19_log_written_count)",
     "--id next to --ids-file: the property does not say which wins; the model (file wins) is compared (agree), holds "
     "demands only exit-status / respelling / unknown-entry clauses for such runs",
     "cli configurations avoid inputs that trip defects owned by other properties (un-indexed VCF, effect IDs absent from "
@@ -144,16 +169,28 @@ def main_cmd():
     return main
 
 
-def invoke(args):
-    """-> (exit_code, exception class name or None, raised?, tail of the output, usage-error text shown?)"""
+def invoke_full(args):
+    """-> (exit_code, exception class name or None, raised?, tail of the output, usage-error text shown?,
+    what the command wrote to stderr)"""
     from click.testing import CliRunner
 
     res = CliRunner().invoke(main_cmd(), args)
     exc = res.exception
     raised = exc is not None and not (isinstance(exc, SystemExit) and exc.code in (0, None))
     usage = "Usage:" in res.output and "Error:" in res.output
+    try:
+        # click >= 8.2 always keeps stderr apart (and interleaves both streams in .output); older versions mix
+        # stderr into .output unless the runner was made with mix_stderr=False, and then .stderr raises
+        err = res.stderr
+    except (ValueError, AttributeError):
+        err = res.output
     return (int(res.exit_code), (type(exc).__name__ if exc is not None else None), bool(raised), res.output[-300:],
-            bool(usage))
+            bool(usage), err)
+
+
+def invoke(args):
+    """-> (exit_code, exception class name or None, raised?, tail of the output, usage-error text shown?)"""
+    return invoke_full(args)[:5]
 
 
 # ---------------------------------------------------------------------------
@@ -661,33 +698,103 @@ def words_of(msg):
     return out
 
 
-class Capture:
-    """records of level >= WARNING that reach the root logger (the commands log on haptools.<command>, the data
-    classes on the logger they are handed) and warnings issued through the warnings module while a command runs"""
+LEVELS = {"NOTSET": 0, "DEBUG": 10, "INFO": 20, "WARNING": 30, "ERROR": 40, "CRITICAL": 50}
+# haptools/logging.py: "[%(levelname)8s" (+ "|%(asctime)s" at DEBUG) + "] %(message)s (%(filename)s:%(lineno)s)"
+LOG_HEAD = re.compile(r"^\[\s*(DEBUG|INFO|WARNING|ERROR|CRITICAL)(\|[^\]]*)?\] ")
+LOG_TAIL = re.compile(r" \([^\s()]+:\d+\)$")
+# warnings.showwarning: "<file>:<line>: <Category>: <message>" and the source line, indented, below it
+WARN_LINE = re.compile(r"^.*?:\d+: (\w*(?:Warning|Error)\w*): (.*)$")
+# verbosity of an earlier run ("same": that of the run under test; None: the option is not given)
+HISTORY_V = ["ERROR", "DEBUG", "NOTSET", "CRITICAL", "WARNING", None, "same", "ERROR"]
+JUDGED = ["cli", "alt", "ref", "py"]
 
-    def __init__(self, cmd):
-        self.cmd = cmd
-        self.msgs = []
+
+def norm_text(t):
+    return "\n".join(x.rstrip() for x in t.split("\n")).strip("\n")
+
+
+def parse_printed(text):
+    """what a command printed, parsed back: -> (log lines [[level, message]], library warnings [[25, text]]).
+    A log line starts with the level in brackets and ends with " (file:line)"; a message may span lines."""
+    logs, warns = [], []
+    lines = text.replace("\r\n", "\n").split("\n")
+    k = 0
+    while k < len(lines):
+        m = LOG_HEAD.match(lines[k])
+        if m:
+            body = [lines[k][m.end():]]
+            end = k
+            if not LOG_TAIL.search(lines[k]):
+                # a message of several lines: up to the line that carries the (file:line) suffix
+                for j in range(k + 1, min(len(lines), k + 400)):
+                    if LOG_HEAD.match(lines[j]):
+                        break
+                    if LOG_TAIL.search(lines[j]):
+                        body += lines[k + 1:j + 1]
+                        end = j
+                        break
+            body[-1] = LOG_TAIL.sub("", body[-1])
+            logs.append([LEVELS[m.group(1)], norm_text("\n".join(body))])
+            k = end + 1
+            continue
+        w = WARN_LINE.match(lines[k])
+        if w:
+            warns.append([25, f"{w.group(1)}: {w.group(2).rstrip()}"])
+        k += 1
+    return logs, warns
+
+
+def reset_logging():
+    """every case starts like a fresh process as far as the logging module goes: the haptools loggers have no
+    handlers and no level (the workers of the harness run many cases)"""
+    import logging
+
+    for name, lg in list(logging.root.manager.loggerDict.items()):
+        if (name == "haptools" or name.startswith("haptools.")) and isinstance(lg, logging.Logger):
+            for h in list(lg.handlers):
+                lg.removeHandler(h)
+            lg.setLevel(logging.NOTSET)
+            lg.disabled = False
+            lg.propagate = True
+            del lg.filters[:]
+    logging.getLogger().setLevel(logging.WARNING)
+
+
+class Seen:
+    """Around one run.  Library warnings are not deduplicated (an 'always' filter: the harness's process has run
+    other cases) and go where Python sends them (sys.stderr, i.e. into what CliRunner captures); with record=True
+    they are kept aside instead (Python entry point).  The log records that come into being on the subcommand's
+    logger are noted through the record factory - no handler or filter is attached to any logger, so what the
+    command prints, and through which handlers, is untouched (a handler on the root logger would also switch off
+    logging.lastResort)."""
+
+    def __init__(self, cmd, record=False):
+        self.name = "haptools." + cmd
+        self.record = record
+        self.recs = []
 
     def __enter__(self):
         import logging
         import warnings
 
+        self.old_factory = logging.getLogRecordFactory()
         outer = self
 
-        class H(logging.Handler):
-            def emit(self, rec):
-                if rec.levelno >= logging.WARNING:
-                    try:
-                        outer.msgs.append([int(rec.levelno), rec.getMessage()])
-                    except Exception:  # noqa
-                        outer.msgs.append([int(rec.levelno), str(rec.msg)])
+        def factory(*a, **k):
+            rec = outer.old_factory(*a, **k)
+            try:
+                if rec.name == outer.name:
+                    outer.recs.append([int(rec.levelno), norm_text(rec.getMessage())])
+            except Exception:  # noqa
+                pass
+            return rec
 
-        self.h = H(level=0)
-        # a previous run's StreamHandlers point at streams that are closed by now
-        logging.getLogger("haptools." + self.cmd).handlers.clear()
-        logging.getLogger().addHandler(self.h)
-        self.cw = warnings.catch_warnings(record=True)
+        logging.setLogRecordFactory(factory)
+        # a handler left by an earlier run may point at a stream that no longer exists: as in production,
+        # the logging module is not to print tracebacks about that into the output under test
+        self.old_raise = logging.raiseExceptions
+        logging.raiseExceptions = False
+        self.cw = warnings.catch_warnings(record=self.record)
         self.wlist = self.cw.__enter__()
         warnings.simplefilter("always")
         return self
@@ -696,10 +803,8 @@ class Capture:
         import logging
 
         self.cw.__exit__(*exc)
-        for w in self.wlist:
-            self.msgs.append([25, f"{w.category.__name__}: {w.message}"])
-        logging.getLogger().removeHandler(self.h)
-        logging.getLogger("haptools." + self.cmd).handlers.clear()
+        logging.setLogRecordFactory(self.old_factory)
+        logging.raiseExceptions = self.old_raise
         return False
 
 
@@ -715,8 +820,8 @@ class Cli(Relation):
     timeout_per_case = 300
     anchors = [("haptools/__main__.py", n) for n in
                ("transform", "simphenotype", "ld", "index", "clump", "simgenotype", "karyogram")] + [
-        # modelled in C19_Model.v (index_tail)
-        ("haptools/index.py", "index_haps")]
+        # modelled in C19_Model.v (index_tail; get_logger)
+        ("haptools/index.py", "index_haps"), ("haptools/logging.py", "getLogger")]
 
     # ---- generation
     def _selection(self, rng, pool, unknown):
@@ -937,7 +1042,32 @@ class Cli(Relation):
             fail = FAIL_CLASSES[cmd][int(rng.integers(0, len(FAIL_CLASSES[cmd])))]
         if fail:
             self._apply_fail(rng, inp, fail)
+        self._sequence(rng, inp)
         return inp
+
+    def _sequence(self, rng, inp):
+        """the order in which the runs of the case are made (one process) and what else ran before them"""
+        seq = list(JUDGED)
+        if rng.random() < 0.65:
+            seq = [seq[int(j)] for j in rng.permutation(4)]
+        if rng.random() < 0.45:
+            for _ in range(int(rng.choice([1, 1, 2]))):
+                r = rng.random()
+                if r < 0.5:
+                    # the same subcommand on the same inputs, another verbosity, another output path
+                    item = {"h": "cli", "v": HISTORY_V[int(rng.integers(0, len(HISTORY_V)))]}
+                elif r < 0.85:
+                    # through the other door: the Python entry point, left to make its own logger
+                    item = {"h": "api"}
+                else:
+                    # another subcommand (were two of them to share a logger ...)
+                    item = {"h": "index", "v": HISTORY_V[int(rng.integers(0, len(HISTORY_V)))]}
+                # mostly before the command-line run under test
+                at = seq.index("cli") if rng.random() < 0.6 else int(rng.integers(0, len(seq) + 1))
+                seq.insert(at, item)
+        inp["seq"] = seq
+        # the judged call of the entry point: with a logger of the command line's level, or without one
+        inp["pylog"] = "none" if rng.random() < 0.3 else "given"
 
     def generate(self, rng, n, tier):
         out = [self._case(rng, [0, 1, 2, 3, 4, 5, 6, 0, 1, 2][k % 10]) for k in range(n)]
@@ -1214,13 +1344,20 @@ class Cli(Relation):
             a = head + [x for c in reversed(chunks) for x in c] + pos
         return a
 
-    def _python(self, inp, f, outdir):
-        """the documented Python entry point on the same parameters"""
+    def _python(self, inp, f, outdir, logmode="given"):
+        """the documented Python entry point on the same parameters; logmode "given": with a logger of the level the
+        command line would use, "none": without one (index / transform / simphenotype / ld then make their own, at
+        ERROR; the other entry points require one: an ERROR one is made for them)"""
         from pathlib import Path
         from haptools.logging import getLogger
 
         cmd, p = inp["cmd"], inp["params"]
-        log = getLogger(CMDS[cmd], p.get("verbosity") or "INFO")
+        if logmode == "given":
+            log = getLogger(CMDS[cmd], p.get("verbosity") or "INFO")
+        elif cmd <= 3:
+            log = None
+        else:
+            log = getLogger(CMDS[cmd], "ERROR")
         sset = lambda l: None if l is None else set(l)
         real_outdir = outdir
         if p.get("outdir"):
@@ -1293,41 +1430,113 @@ class Cli(Relation):
             PlotKaryogram(f["bp"], p["sample"], os.path.join(outdir, "k.png"), log,
                           centromeres_file=f.get("centromeres"), title=p["title"], colors=colors)
 
+    @staticmethod
+    def sequence_of(inp):
+        """the runs of a case in the order they are made; inputs recorded before the order was drawn (corpus) have the
+        historical order.  Every judged run occurs exactly once."""
+        seq = [t for t in (inp.get("seq") or JUDGED) if isinstance(t, dict) or t in JUDGED]
+        out, seen = [], set()
+        for t in seq:
+            if isinstance(t, str):
+                if t in seen:
+                    continue
+                seen.add(t)
+            out.append(t)
+        return out + [t for t in JUDGED if t not in seen]
+
+    def _history(self, inp, f, d, j, item):
+        """an earlier run in the same process; whatever it does, it is only history.  -> the getLogger call it makes"""
+        cmd, p = inp["cmd"], inp["params"]
+        hd = os.path.join(d, f"h{j}")
+        outdir = os.path.join(hd, "o")
+        os.makedirs(outdir)
+        kind = item.get("h")
+        try:
+            if kind == "cli":
+                v = p.get("verbosity") if item.get("v") == "same" else item.get("v")
+                cfg = dict(inp, params=dict(p, verbosity=v))
+                with Seen(CMDS[cmd]):
+                    invoke(self._argv(cfg, f, hd, outdir, f"h{j}", False))
+                return [cmd, LEVELS[v or "INFO"], "new"]
+            if kind == "api":
+                with Seen(CMDS[cmd], record=True):
+                    try:
+                        self._python(inp, f, outdir, "none")
+                    except BaseException:  # noqa
+                        pass
+                return [cmd, LEVELS["ERROR"], "own"]
+            if kind == "index":
+                path = os.path.join(hd, "t.hap")
+                with open(path, "w") as fh:
+                    fh.write("#\tversion\t0.2.0\nH\t1\t10\t15\tA\nV\tA\t12\t13\trs1\tT\n")
+                v = p.get("verbosity") if item.get("v") == "same" else item.get("v")
+                with Seen("index"):
+                    invoke(["index"] + ([] if v is None else ["-v", v]) + [path])
+                return [3, LEVELS[v or "INFO"], "new"]
+        except BaseException:  # noqa
+            pass
+        return None
+
     def run_impl(self, inp):
         d = tempfile.mkdtemp(prefix="hv_c19_")
         old_tmp = tempfile.tempdir
         tempfile.tempdir = d
         try:
+            reset_logging()
             f = self._files(inp, d)
             I = L.Interner()
             res = {}
-            runs = [("cli", inp, False), ("alt", inp, True)]
+            cmd, p = inp["cmd"], inp["params"]
             ref = self._without_unknown(inp)
-            if ref is not None:
-                runs.append(("ref", ref, False))
-            for tag, cfg, swap in runs:
-                outdir = os.path.join(d, tag, "o")
-                os.makedirs(outdir)
-                with Capture(CMDS[inp["cmd"]]) as cap:
-                    code, exc, raised, tail, _usage = invoke(self._argv(cfg, f, os.path.join(d, tag), outdir, tag, swap))
-                res[tag] = {"exit": code, "exc": exc, "raised": raised, "out": intern_outputs(outdir, I), "tail": tail,
-                            "msgs": cap.msgs, "missing": missing_outputs(cfg, outdir)}
-                if tag == "cli":
-                    res["members"] = out_members(inp["cmd"], outdir, inp["params"])
-            outdir = os.path.join(d, "py", "o")
-            os.makedirs(outdir)
-            with Capture(CMDS[inp["cmd"]]):
-                try:
-                    self._python(inp, f, outdir)
-                    res["py"] = {"ok": intern_outputs(outdir, I), "missing": missing_outputs(inp, outdir)}
-                except SystemExit as e:
-                    # karyogram reports an absent sample with sys.exit(1)
-                    if e.code in (0, None):
-                        res["py"] = {"ok": intern_outputs(outdir, I), "missing": missing_outputs(inp, outdir)}
-                    else:
-                        res["py"] = {"err": err_kind(e), "cls": "SystemExit", "msg": str(e.code)}
-                except Exception as e:  # noqa
-                    res["py"] = {"err": err_kind(e), "cls": type(e).__name__, "msg": str(e)[:200]}
+            # the getLogger calls made so far in this process: [subcommand, level, stream]; stream 0 = the
+            # process's own stderr, every CliRunner invocation has a stream of its own
+            calls, streams = [], [0]
+
+            def call_of(c):
+                if c is None:
+                    return
+                if c[2] == "new":
+                    streams[0] += 1
+                calls.append([c[0], c[1], streams[0] if c[2] == "new" else 0])
+
+            for j, tok in enumerate(self.sequence_of(inp)):
+                if isinstance(tok, dict):
+                    call_of(self._history(inp, f, d, j, tok))
+                elif tok == "py":
+                    outdir = os.path.join(d, "py", "o")
+                    os.makedirs(outdir)
+                    logmode = inp.get("pylog", "given")
+                    with Seen(CMDS[cmd], record=True):
+                        try:
+                            self._python(inp, f, outdir, logmode)
+                            res["py"] = {"ok": intern_outputs(outdir, I), "missing": missing_outputs(inp, outdir)}
+                        except SystemExit as e:
+                            # karyogram reports an absent sample with sys.exit(1)
+                            if e.code in (0, None):
+                                res["py"] = {"ok": intern_outputs(outdir, I), "missing": missing_outputs(inp, outdir)}
+                            else:
+                                res["py"] = {"err": err_kind(e), "cls": "SystemExit", "msg": str(e.code)}
+                        except Exception as e:  # noqa
+                            res["py"] = {"err": err_kind(e), "cls": type(e).__name__, "msg": str(e)[:200]}
+                    call_of([cmd, LEVELS[(p.get("verbosity") or "INFO") if logmode == "given" else "ERROR"], "own"])
+                else:
+                    if tok == "ref" and ref is None:
+                        continue
+                    cfg, swap = (ref if tok == "ref" else inp), tok == "alt"
+                    outdir = os.path.join(d, tok, "o")
+                    os.makedirs(outdir)
+                    argv = self._argv(cfg, f, os.path.join(d, tok), outdir, tok, swap)
+                    before = [list(c) for c in calls]
+                    with Seen(CMDS[cmd]) as seen:
+                        code, exc, raised, tail, _usage, err = invoke_full(argv)
+                    call_of([cmd, LEVELS[p.get("verbosity") or "INFO"], "new"])
+                    logs, warns = parse_printed(err)
+                    # what the run reported = what it printed: log lines of level >= WARNING and library warnings
+                    res[tok] = {"exit": code, "exc": exc, "raised": raised, "out": intern_outputs(outdir, I), "tail": tail,
+                                "msgs": [m for m in logs if m[0] >= 30] + warns, "missing": missing_outputs(cfg, outdir)}
+                    if tok == "cli":
+                        res["members"] = out_members(cmd, outdir, p)
+                        res["log"] = {"calls": before, "call": calls[-1], "recs": seen.recs[:80], "printed": logs[:400]}
             return res
         finally:
             tempfile.tempdir = old_tmp
@@ -1337,7 +1546,7 @@ class Cli(Relation):
         cmd = inp["cmd"]
         if "cli" not in obs:
             return (f"(mkcc {cmd} false false false 97 false [] (Err 97) None None false [] "
-                    f"None [] None None [] None [] [] None)")
+                    f"None [] None None [] None [] [] None [] (mkcall 0 20 0) [] [])")
         both = inp.get("sform") == "both"
         ids_both = inp.get("iform") == "both"
         c, alt = obs["cli"], obs["alt"]
@@ -1380,11 +1589,18 @@ class Cli(Relation):
             t = tbx_triples(inp["lines"])
             if t is not None:
                 index = "(Some " + L.lst(t, lambda r: f"({L.z(I(('seq', r[0])))}, {L.z(r[1])}, {L.z(r[2])})") + ")"
+        # the model of haptools/logging.py: the getLogger calls before the CLI run, its own, the records that came
+        # into being on the subcommand's logger and the log lines it printed
+        lg = obs.get("log") or {"calls": [], "call": [cmd, 20, 0], "recs": [], "printed": []}
+        mkcall = lambda c: f"(mkcall {L.z(c[0])} {L.z(c[1])} {L.z(c[2])})"
+        rec = lambda m: f"({L.z(m[0])}, {L.z(I(('msg', m[1])))})"
+        logm = (f"{L.lst(lg['calls'], mkcall)} {mkcall(lg['call'])} {L.lst(lg['recs'], rec)} "
+                f"{L.lst(lg['printed'], rec)}")
         return (f"(mkcc {cmd} {L.b(both)} {L.b(ids_both)} {L.b(bool(p.get('from_gts')))} {L.z(c['exit'])} "
                 f"{L.b(c['raised'])} {L.zl(c['out'])} "
                 f"{L.res(obs['py'], L.zl)} (Some ({L.z(alt['exit'])}, {L.zl(alt['out'])})) {ref} {L.b(verbose)} {logs} "
                 f"{oz(req_s)} {zs(known_s)} {oz(out_s)} {oz(sel_i)} {oz(req_i)} {zs(known_i)} {oz(out_i)} "
-                f"{miss} {py_miss} {index})")
+                f"{miss} {py_miss} {index} {logm})")
 
     def nontrivial(self, inp, obs):
         if "cli" not in obs:
@@ -1428,6 +1644,22 @@ class Cli(Relation):
         if inp["cmd"] == 5:
             out.append(f"simgenotype:out={p.get('out', 'vcf')}")
         out.append(f"verbosity={p.get('verbosity')}")
+        seq = self.sequence_of(inp)
+        first = [t for t in seq if isinstance(t, str)][0]
+        out.append(f"first-run:{first}")
+        if inp.get("pylog") == "none":
+            out.append("python-entry-point-without-logger")
+        at = seq.index("cli")
+        for t in seq:
+            if isinstance(t, dict):
+                when = "before" if seq.index(t) < at else "after"
+                out.append(f"history-{when}-cli:{t['h']}" + (f":-v {t.get('v') or 'default'}" if t["h"] != "api" else ""))
+        if "log" in obs and obs["log"]["calls"]:
+            lv = obs["log"]["call"][1]
+            same = [c for c in obs["log"]["calls"] if c[0] == inp["cmd"]]
+            if same:
+                out.append("cli-run-after:" + ("less-verbose" if same[0][1] > lv else
+                                               ("more-verbose" if same[0][1] < lv else "equally-verbose")) + "-first-call")
         if inp.get("fail"):
             done = "cli" in obs and obs["cli"]["exit"] == 0
             out.append(f"{name}:meant-to-fail:{inp['fail']}" + (":completed-all-the-same" if done else ""))
@@ -1457,6 +1689,25 @@ class Cli(Relation):
         return out
 
     def shrink(self, inp):
+        # fewer earlier runs, the historical order, the entry point with a logger
+        seq = self.sequence_of(inp)
+        hist = [k for k, t in enumerate(seq) if isinstance(t, dict)]
+        if hist:
+            yield dict(inp, seq=[t for t in seq if not isinstance(t, dict)])
+            if len(hist) > 1:
+                for k in hist:
+                    yield dict(inp, seq=seq[:k] + seq[k + 1:])
+        judged = [t for t in seq if isinstance(t, str)]
+        if judged != JUDGED:
+            at = ([k for k, t in enumerate(seq) if isinstance(t, dict) and k < seq.index("cli")])
+            yield dict(inp, seq=[seq[k] for k in at] + JUDGED + [t for k, t in enumerate(seq)
+                                                                 if isinstance(t, dict) and k not in at])
+        # a run made before the command-line run under test is made after it instead
+        at = seq.index("cli")
+        for k in range(at):
+            yield dict(inp, seq=seq[:k] + seq[k + 1:at + 1] + [seq[k]] + seq[at + 1:])
+        if inp.get("pylog") == "none":
+            yield dict(inp, pylog="given")
         if inp["cmd"] in (0, 1, 2):
             if inp.get("iform") == "both":
                 yield {k: v for k, v in dict(inp, iform="file").items() if k != "ids_extra"}
@@ -1512,8 +1763,21 @@ class Cli(Relation):
         files = [n for n, k, f in (("samples-file", "samples", "sform"), ("ids-file", "ids", "iform"))
                  if inp.get(k) is not None]
         ref = obs.get("ref")
-        return (f"cli {CMDS[inp['cmd']]} selection={'+'.join(files) or 'none'} exit={obs['cli']['exit']} "
-                f"raised={obs['cli']['exc']} respelled-exit={obs['alt']['exit']} respelled-raised={obs['alt']['exc']} "
+        # what ran earlier in the process, as far as the subcommand's logger goes: the level of the FIRST getLogger
+        # call of that name relative to this run's (none / less / equally / more verbose)
+        lg = obs.get("log") or {}
+        same = [c for c in lg.get("calls", []) if c[0] == inp["cmd"]]
+        lv = (lg.get("call") or [0, 20, 0])[1]
+        eff = lambda v: 30 if v == 0 else v
+        first = (None if not same else
+                 ("less-verbose" if eff(same[0][1]) > eff(lv) else
+                  ("more-verbose" if eff(same[0][1]) < eff(lv) else "equally-verbose")))
+        unprinted = [r for r in lg.get("recs", []) if r not in lg.get("printed", [])]
+        return (f"cli {CMDS[inp['cmd']]}"
+                + (f" first-earlier-use-of-its-logger={first}" if first else "")
+                + (" created-records-not-printed" if unprinted else "")
+                + f" selection={'+'.join(files) or 'none'} exit={obs['cli']['exit']} "
+                + f"raised={obs['cli']['exc']} respelled-exit={obs['alt']['exit']} respelled-raised={obs['alt']['exc']} "
                 f"python={'ok' if 'ok' in obs['py'] else obs['py'].get('cls')}"
                 + (f" without-unknown-exit={ref['exit']}" if ref else "")
                 + (f" documented-outputs-missing={sorted(obs['cli']['missing'])}" if obs["cli"].get("missing") else ""))
@@ -1553,13 +1817,19 @@ LEVEL_TEXT = (
     "lines are in the order tabix accepts (declarative characterisation, both directions, by induction), the refuted "
     "'copy only if it exists' variant, and checker-soundness theorems for the clause 'documented output missing or "
     "entry point raises => exit != 0' that is evaluated on every run of every subcommand, incl. configurations meant "
-    "to fail."
+    "to fail. 'Reported', whatever ran before: a Gallina model of haptools/logging.py's getLogger (one logger object "
+    "per name, setLevel, a new console handler of the call's level on the sys.stderr of that moment) with theorems "
+    "that what a run shows is a function of its own verbosity for every sequence of earlier calls, how often a line "
+    "appears, the refuted 'return the logger as it is when it already has a handler' variant (the first call of the "
+    "name decides), tied to /repo by comparing, for every command-line run, the records created on the subcommand's "
+    "logger with the log lines it printed, after drawn histories in the same process."
 )
 LEVEL_NOTE = (
     "Partial: click's own parsing is trusted; the theorems cover the option-resolution logic and selection by "
     "membership, the equality of whole-command outputs is established by the correspondence run only. 'reported' is "
     "checked as 'a warning that is absent without the unknown entries and names one of them' everywhere and as 'every "
-    "one named in a warning' where the commands name entries (IDs of transform / simphenotype, haplotype IDs of ld). "
+    "one named in a warning' where the commands name entries (IDs of transform / simphenotype, haplotype IDs of ld), "
+    "on the text the command printed (CliRunner), after other runs in the same process. "
     "Of the failing runs only index's is modelled; for the other six subcommands 'failing => non-zero' is the checked "
     "clause on generated failing configurations."
 )
